@@ -6,15 +6,9 @@
 (* module; a property module adds an `EmitInv` that prints one JSON case   *)
 (* (input + expected observation computed by the oracles) per new state.   *)
 (***************************************************************************)
-EXTENDS Heap
+EXTENDS Choices
 
-CONSTANTS MaxObjs,      \* number of objects in a heap
-          MaxTuple,     \* longest variadic tuple built
-          GenClasses,   \* classes instantiated by this run
-          Origins       \* origin atoms
-
-(* PropAtoms(c, f): the atoms tried for property f of class c -- defined by the instance module *)
-CONSTANT PropAtoms(_, _)
+CONSTANTS MaxObjs      \* number of objects in a heap
 
 VARIABLE h
 
@@ -23,31 +17,9 @@ SlotName == <<"s1", "s2", "s3", "s4", "s5", "s6", "s7", "s8", "s9">>
 NObj == Cardinality(DOMAIN h)
 Newest == SlotName[NObj]
 
-SlotsOf(allowed) == {s \in DOMAIN h : h[s].c \in allowed}
-
-KidChoices(c, f) ==
-    LET kd == Kind[c][f] IN
-    IF kd = "one" THEN SlotsOf(Allowed[c][f])
-    ELSE IF kd = "opt" THEN SlotsOf(Allowed[c][f]) \cup {NoSlot}
-    ELSE IF kd = "tuple"
-         THEN UNION {[1..len -> SlotsOf(Allowed[c][f])] : len \in 0..MaxTuple}
-    ELSE {t \in [1..Len(Allowed[c][f]) -> DOMAIN h] :
-             \A j \in 1..Len(Allowed[c][f]) : h[t[j]].c \in Allowed[c][f][j]}
-
-RECURSIVE KidSpace(_, _)
-KidSpace(c, fs) ==
-    IF fs = <<>> THEN {<<>>}
-    ELSE {(Head(fs) :> v) @@ r : v \in KidChoices(c, Head(fs)), r \in KidSpace(c, Tail(fs))}
-
-RECURSIVE PropSpace(_, _)
-PropSpace(c, fs) ==
-    IF fs = <<>> THEN {<<>>}
-    ELSE {(Head(fs) :> v) @@ r : v \in PropAtoms(c, Head(fs)), r \in PropSpace(c, Tail(fs))}
-
 New(c) ==
     /\ NObj < MaxObjs
-    /\ \E p \in PropSpace(c, PropFields[c]), k \in KidSpace(c, ChildFields[c]), o \in Origins :
-          h' = h @@ (SlotName[NObj + 1] :> [c |-> c, p |-> p, k |-> k, o |-> o])
+    /\ \E r \in Ctor(h, c) : h' = h @@ (SlotName[NObj + 1] :> r)
 
 Init == h = <<>>
 Next == \E c \in GenClasses : New(c)
